@@ -7,6 +7,7 @@ from fractions import Fraction
 
 from vf import lpref
 from vf.combi import digits
+from vf.guard import call as gcall, too_many_hangs
 from vf.core import HarnessError, Job, new_result, viol
 
 LEVEL = "exploration"
@@ -155,7 +156,7 @@ def _chunk(params, lo, hi):
             if nontrivial:
                 r["nontrivial"] += 1
             try:
-                res = fn(fc, fA, fb, minimize=minimize)
+                res = gcall(lambda: fn(fc, fA, fb, minimize=minimize), 5.0, 50_000_000)
             except Exception as ex:  # noqa: BLE001
                 r["outcomes"][fname + ":raised"] += 1
                 r["violations"].append(viol(fname, "raised", wit, f"{fname}(c={c}, A={A}, b={b}, minimize={minimize}): {type(ex).__name__}: {ex}"))
@@ -167,7 +168,7 @@ def _chunk(params, lo, hi):
                 r["violations"].append(viol(fname, kind, wit, f"{fname}(c={c}, A={A}, b={b}, minimize={minimize}): {detail}"))
         if not r["samples"]:
             r["samples"].append(wit)
-        if len(r["violations"]) >= 40:
+        if len(r["violations"]) >= 40 or too_many_hangs():
             r["capped"] = True
             break
     return r
